@@ -1512,6 +1512,9 @@ Hendaccess(int32 access_id)
     /* if special elt, call special function */
     if (access_rec->special) {
         ret_value = (*access_rec->special_func->endaccess)(access_rec);
+        /* the special function disposes of the access record itself, also when it
+           fails: releasing it again here would put it on the free list twice */
+        access_rec = NULL;
         goto done;
     } /* end if */
 
@@ -1526,6 +1529,7 @@ Hendaccess(int32 access_id)
 
     file_rec->attach--;
     HIrelease_accrec_node(access_rec);
+    access_rec = NULL;
 
 done:
     if (ret_value == FAIL) { /* Error condition cleanup */
